@@ -2,7 +2,7 @@
 SPECIFICATION Spec
 CONSTANTS
   MembersFile = "members.ndjson"
-  ExhaustiveFams = {"AllocKind", "DISPFlag"}
+  ExhaustiveFams = {"AllocKind", "DISPFlag", "FastMathFlag", "OverflowFlag"}
   Arity = 2
   RangeLimited = FALSE
 INVARIANTS ExactCover Decomposable Emit
